@@ -24,6 +24,9 @@ fn c17_key_non_ascii_identifier() {
     assert!(by_class("##.ad😀", "ad").is_empty());
     assert_eq!(by_class("##.ad😀 > div", "ad😀"), vec![".ad😀 > div".to_string()]);
     assert_eq!(by_id("###😀", "😀"), vec!["#😀".to_string()]);
+    // the same when the identifier also carries a CSS escape (the escaped-selector path)
+    assert_eq!(by_class("##.promo\\:★box", "promo:★box"), vec![".promo\\:★box".to_string()]);
+    assert!(by_class("##.promo\\:★box", "promo:").is_empty());
 }
 
 /// OBL C17.key.reachable_once
